@@ -82,6 +82,18 @@ pub open spec fn lookup(st: Seq<Scope>, name: Seq<char>, n: int) -> Option<Seq<c
 }
 
 pub uninterp spec fn defaulted(e: SvgElement) -> bool;
+/// `ev` is `raw` after eval_attributes (a relation: several raw elements may evaluate to the same one)
+pub uninterp spec fn evaluated_from(raw: SvgElement, ev: SvgElement) -> bool;
+/// the (name, value) pairs of an element's attribute map, in its order
+pub uninterp spec fn spec_pairs(e: SvgElement) -> Seq<(String, String)>;
+pub uninterp spec fn attr_of(e: SvgElement, k: Seq<char>) -> Option<Seq<char>>;
+pub uninterp spec fn byte_len(s: Seq<char>) -> nat;
+/// the attributes of a <g> / <reuse> are variables of its content: every value that substitution produced
+/// (it differs from what the author wrote) is within var-limit - the bound <var> enforces on assigned values
+pub open spec fn scope_vars_bounded(raw: SvgElement, ev: SvgElement, limit: nat) -> bool {
+    forall|i: int| 0 <= i < spec_pairs(ev).len() ==>
+        byte_len((#[trigger] spec_pairs(ev)[i]).1@) <= limit || attr_of(raw, spec_pairs(ev)[i].0@) == Some(spec_pairs(ev)[i].1@)
+}
 pub uninterp spec fn attrs_evaluated(a: AttrMap, c: ClassList) -> bool;
 /// everything of the context a scoping generator must restore
 pub open spec fn scope_frame(pre: TransformerContext, post: TransformerContext) -> bool {
@@ -99,13 +111,15 @@ pub open spec fn scope_untouched(pre: TransformerContext, post: TransformerConte
 
 impl SvgElement {
     #[verifier::external_body] pub fn get_attrs(&self) -> VarTable { unimplemented!() }
-    #[verifier::external_body] pub fn get_attr(&self, key: &str) -> Option<String> { unimplemented!() }
+    #[verifier::external_body] pub fn get_attr(&self, key: &str) -> (r: Option<String>)
+        ensures match attr_of(*self, key@) { Some(v) => r is Some && r->Some_0@ == v, None => r is None }
+    { unimplemented!() }
     #[verifier::external_body] pub fn has_attr(&self, key: &str) -> bool { unimplemented!() }
     #[verifier::external_body] pub fn set_attr(&mut self, key: &str, value: &str) { unimplemented!() }
     #[verifier::external_body] pub fn pop_attr(&mut self, key: &str) -> Option<String> { unimplemented!() }
     /// ghost: the `{{..}}` / `$var` expressions of the attribute values have been evaluated
     pub open spec fn evaluated(&self) -> bool { attrs_evaluated(self.attrs, self.classes) }     // a property of the attribute values (not of the cached content box)
-    #[verifier::external_body] pub fn eval_attributes(&mut self, ctx: &TransformerContext) -> (r: Result<()>) ensures r is Ok ==> final(self).evaluated() { unimplemented!() }
+    #[verifier::external_body] pub fn eval_attributes(&mut self, ctx: &TransformerContext) -> (r: Result<()>) ensures r is Ok ==> final(self).evaluated() && evaluated_from(*old(self), *final(self)) { unimplemented!() }
     #[verifier::external_body] pub fn inner_events(&self, context: &TransformerContext) -> Option<InputList> { unimplemented!() }
     #[verifier::external_body] pub fn is_empty_element(&self) -> bool { unimplemented!() }
     #[verifier::external_body] pub fn bbox(&self) -> Result<Option<BoundingBox>>
@@ -157,6 +171,10 @@ pub fn process_events(input: InputList, context: &mut TransformerContext) -> (r:
         old(context).scope_stack.len() > 0 ==> final(context).scope_stack@.drop_last() == old(context).scope_stack@.drop_last(),
 { unimplemented!() }
 
+/// R-iter-vec: `for (k, v) in attr_map.clone()` iterates the map's (ordered) vector of pairs
+#[verifier::external_body]
+pub fn attr_pairs(e: &SvgElement) -> (r: Vec<(String, String)>) ensures r@ == spec_pairs(*e) { unimplemented!() }
+
 impl TransformerContext {
 //@item src/context.rs :: impl TransformerContext :: fn ensure_scope
 //@ replace[R-default] <<<Scope::default()>>> => <<<Scope::default()>>>
@@ -205,11 +223,24 @@ impl TransformerContext {
 //@item src/context.rs :: impl TransformerContext :: fn push_element
 //@ requires
 //@ - el.evaluated()     @@C15.push.attributes_evaluated_in_enclosing_scope
+//@ - exists|raw: SvgElement| #[trigger] evaluated_from(raw, *el) && scope_vars_bounded(raw, *el, self.config.var_limit as nat)     @@C17.scope.attribute_vars_bounded @@C01.scope.attribute_vars_bounded
 //@ ensures
 //@ - final(self).element_stack@ == old(self).element_stack@.push(*el)    @@C15.push.element
 //@ - final(self).scope_stack.len() == old(self).scope_stack.len() + 1    @@C15.push.scope
 //@ - final(self).scope_stack@.drop_last() == old(self).scope_stack@    @@C15.push.innermost
 //@ - final(self).in_specs == old(self).in_specs && final(self).config == old(self).config
+//@end
+
+//@item src/context.rs :: impl TransformerContext :: fn check_scope_vars
+//@ replace[R-iter-vec] <<<for (key, value) in evaluated.attrs.clone() {>>> => <<<for (key, value) in attr_pairs(evaluated) {>>>
+//@ ensures
+//@ - r is Ok ==> scope_vars_bounded(*original, *evaluated, self.config.var_limit as nat)     @@C17.scope.check_bounds_every_attribute @@C01.scope.check_bounds_every_attribute
+//@ - r is Err ==> !scope_vars_bounded(*original, *evaluated, self.config.var_limit as nat)     @@C17.scope.rejected_only_beyond_limit
+//@ loop 1
+//@ iter it
+//@ invariant
+//@ - spec_pairs(*evaluated) == it.history@ + vstd::std_specs::iter::IteratorSpec::remaining(&it.iter)
+//@ - forall|i: int| 0 <= i < it.history@.len() ==> byte_len((#[trigger] spec_pairs(*evaluated)[i]).1@) <= self.config.var_limit as nat || attr_of(*original, spec_pairs(*evaluated)[i].0@) == Some(spec_pairs(*evaluated)[i].1@)
 //@end
 
 //@item src/context.rs :: impl TransformerContext :: fn pop_element
@@ -281,10 +312,6 @@ impl EventGen for SpecsElement {
 }
 
 
-/// R-iter-vec: `for (k, v) in attr_map.clone()` iterates the map's (ordered) vector of pairs
-#[verifier::external_body]
-pub fn attr_pairs(e: &SvgElement) -> Vec<(String, String)> { unimplemented!() }
-pub uninterp spec fn byte_len(s: Seq<char>) -> nat;
 pub assume_specification [String::len] (s: &String) -> (r: usize) ensures r == byte_len(s@);
 
 pub open spec fn within(vars: Seq<(String, String)>, limit: nat) -> bool {
@@ -333,6 +360,8 @@ impl EventGen for ReuseElement {
 //@ replace[R-ctor] <<<SvgElement::new("g", &[])>>> => <<<SvgElement::new_g()>>>
 //@ replace[R-ctor] <<<Position::from(&reuse_element)>>> => <<<position_from(&reuse_element)>>>
 //@ replace[R-abstract] <<<            let mut new_events = InputList::new();\n            let tag_name = instance_element.name.clone();\n            let mut start_ev = InputEvent::from(OutputEvent::Start(instance_element));\n            start_ev.index = start;\n            start_ev.alt_idx = Some(end);\n            new_events.push(start_ev);\n            new_events.extend(&InputList::from(&context.events[start + 1..end]));\n            let mut end_ev = InputEvent::from(OutputEvent::End(tag_name));\n            end_ev.index = end;\n            end_ev.alt_idx = Some(start);\n            new_events.push(end_ev);\n            process_events(new_events, context)>>> => <<<            let new_events = instance_events(instance_element, start, end, context);\n            process_events(new_events, context)>>>
+//@ before <<<instance_element.expand_compound_size();>>>
+//@ | assert(instance_element.name@ == "g"@ ==> exists|raw: SvgElement| #[trigger] evaluated_from(raw, instance_element) && scope_vars_bounded(raw, instance_element, context.config.var_limit as nat)); // the attributes of a group instance become variables of its content: bounded like any other scope variable @C17.scope.group_instance_vars_bounded @C01.scope.group_instance_vars_bounded
 //@ before <<<instance_element.generate_events(context)>>>
 //@ | assert(defaulted(instance_element)); // a single-element instance is a leaf like the hand-written one: the defaults in force apply to it @C18.instance.defaults_applied
 //@ ensures
